@@ -37,7 +37,7 @@ Definition vwr (m : vmem) (ea : Z) (bs : list Z) : vmem :=
 Fixpoint le_val (bs : list Z) : Z := match bs with [] => 0 | b :: r => b + 256 * le_val r end.
 Fixpoint le_bytes (n : nat) (v : Z) : list Z := match n with O => [] | S k => v mod 256 :: le_bytes k (v / 256) end.
 
-Inductive trap := AOob | AUnaligned | AEither.   (* AEither: misaligned AND out of bounds — a trap of either class *)
+Inductive trap := AOob | AUnaligned.   (* an access that is out of bounds traps with AOob, aligned or not; AUnaligned: in bounds, misaligned atomic *)
 Inductive outcome :=
 | OTrap (t : trap)
 | ODone (m' : vmem) (res : list Z)
@@ -69,7 +69,7 @@ Definition guarded (m : vmem) (ea n : Z) (k : unit -> outcome) : outcome :=
 
 Definition atomic (m : vmem) (ea n : Z) (k : unit -> outcome) : outcome :=
   if ea mod n =? 0 then guarded m ea n k
-  else if access_ok (v_size m) ea n then OTrap AUnaligned else OTrap AEither.
+  else if access_ok (v_size m) ea n then OTrap AUnaligned else OTrap AOob.
 
 Definition run (m : vmem) (a : acc) : outcome :=
   match a with
@@ -196,7 +196,7 @@ Fixpoint pl_eqb (a b : list (Z * Z)) : bool :=
 Record gcase := { g_mem : vmem; g_ops : list op; g_trap : Z; g_res : list Z; g_diff : list (Z * Z); g_size : Z }.
 
 Definition trap_matches (t : trap) (o : Z) : bool :=
-  match t with AOob => o =? 1 | AUnaligned => o =? 2 | AEither => (o =? 1) || (o =? 2) end.
+  match t with AOob => o =? 1 | AUnaligned => o =? 2 end.
 
 (* 0 agreement; 1 trap / no trap (or its class); 2 memory contents; 3 size; 4 value; 9 window too small *)
 Definition check_gcase (c : gcase) : Z :=
